@@ -98,6 +98,28 @@ func (o jsonObject) ident(metadata []Metadata) [8]byte {
 	return hashes.combine()
 }
 
+// pathObject is the object which addresses o as a member of a set in a
+// diff path. With set keys it holds only the set keys present in o, so
+// that the member is still found after other fields of it have been
+// patched (and no matter whether the diff shares memory with the
+// document). Without set keys, or when o has none of them, it is o itself.
+func (o jsonObject) pathObject(metadata []Metadata) jsonObject {
+	sk := getSetkeysMetadata(metadata)
+	if sk == nil || len(sk.keys) == 0 {
+		return o
+	}
+	id := newJsonObject()
+	for key := range sk.keys {
+		if value, ok := o[key]; ok {
+			id[key] = value
+		}
+	}
+	if len(id) == 0 {
+		return o
+	}
+	return id
+}
+
 func (o jsonObject) pathIdent(pathObject jsonObject, metadata []Metadata) [8]byte {
 	idKeys := map[string]bool{}
 	for k := range pathObject {
